@@ -82,3 +82,47 @@ func NewSpinWatch(prop, sub, fnMatch string, samples int, over time.Duration) *S
 func (w *SpinWatch) Begin(scenario any) { w.scenario.Store(scenario); w.progress.Add(1) }
 func (w *SpinWatch) Progress()          { w.progress.Add(1) }
 func (w *SpinWatch) Stop()              { close(w.stop) }
+
+// StuckWatch reports a tracked call that does not return: a reader brackets every call it wants
+// watched with Enter(slot) / Leave(slot); if any slot stays entered for longer than limit of real
+// time, the current scenario is written as a replay file, the violation line is printed and the
+// process exits with status 1 (a goroutine blocked for good - e.g. on a lock that was never released -
+// cannot be stopped, and the driver would otherwise only see a timeout).
+type StuckWatch struct {
+	prop, sub, clause string
+	scenario          atomic.Value
+	slots             [64]atomic.Int64 // unix nanoseconds of entry, 0 = not inside a call
+	what              atomic.Value     // string: what the watched calls are
+}
+
+func NewStuckWatch(prop, sub, clause, what string, limit time.Duration) *StuckWatch {
+	w := &StuckWatch{prop: prop, sub: sub, clause: clause}
+	w.what.Store(what)
+	go func() {
+		for {
+			time.Sleep(limit / 20)
+			now := time.Now().UnixNano()
+			for i := range w.slots {
+				t := w.slots[i].Load()
+				if t != 0 && time.Duration(now-t) > limit {
+					v := &Violation{Clause: w.clause, Sig: w.clause,
+						Detail: fmt.Sprintf("%s has not returned after %v of real time (watch slot %d): it is blocked for good", w.what.Load(), time.Duration(now-t).Round(time.Millisecond), i)}
+					p := WriteFailure(w.prop, w.sub, v, w.scenario.Load())
+					Report(w.prop, w.sub, v, p)
+					os.Stdout.Sync()
+					os.Exit(1)
+				}
+			}
+		}
+	}()
+	return w
+}
+
+func (w *StuckWatch) Begin(scenario any) {
+	w.scenario.Store(scenario)
+	for i := range w.slots {
+		w.slots[i].Store(0)
+	}
+}
+func (w *StuckWatch) Enter(slot int) { w.slots[slot%64].Store(time.Now().UnixNano()) }
+func (w *StuckWatch) Leave(slot int) { w.slots[slot%64].Store(0) }
